@@ -169,7 +169,8 @@ Lemma push_old_param_spec be b items v b' ok : represents be b items -> citem_ok
 Proof.
   intros [Hbe Hr] [Hty Hss] Hb H. unfold push_old_param in H. apply helper_spec in H. destruct H as [[-> H]|[-> ->]]; [|reflexivity].
   unfold push_old_inner in H.
-  destruct (marshal_p (bbe b) 0 v {| mbuf := bbuf b; mfds := bfds b |}) as [c [|]] eqn:Em; [|discriminate].
+  destruct (marshal_param_top (bbe b) v {| mbuf := bbuf b; mfds := bfds b |}) as [c [|]] eqn:Em; [|discriminate].
+  apply marshal_param_top_ok in Em. destruct Em as [_ Em].
   injection H as <-. split; [exact Hbe|]. cbn [bbe bsig bbuf bfds].
   rewrite render_snoc. rewrite <- Hr. unfold render_step. cbn [fst snd] in *.
   rewrite Hbe in Em.
